@@ -145,7 +145,7 @@ def main():
     code = finish(PID, tier, rep, t0,
         bounds=dict(argument_range='|z| <= %g (up to %d argument halvings)' % (0.1 * 4 ** nmax, nmax), functions=['stumpff_cs3 (c0..c3)', 'stumpff_cs (c0..c5)', 'stiefel_Gs3', 'reb_whfast_kepler_solver (control flow into the bisection fallback, hyperbolic branch: bracket ends)'], tolerance='1e-15 relative to 1/k! + |c_k|'),
         assumptions=['real arithmetic (the polynomial the code evaluates, with its own double-precision coefficients taken exactly)', 'reference = Taylor polynomial of degree 24 of the Stumpff functions'],
-        outside=['the headline claim: exactness of a whole Kepler step for every (e, a, dt), termination and NaN-freedom of the Newton / quartic / bisection iterations in floating point',
+        outside=['the headline claim: exactness of a whole Kepler step for every (e, a, dt); convergence of the Newton / quartic iterations in floating point (only: termination of the Stumpff reduction loops, the hyperbolic bisection bracket and the bisection decision under overflow are decided)',
                  'the Newton / quartic update formulas, the f-g update and the elliptic bisection bracket of reb_whfast_kepler_solver', 'the G functions inside the solver run are arbitrary reals (stub): the bracket obligations hold whatever they return', '|z| beyond the bound (more halvings)', 'WHFast512', 'rounding error magnitude'],
         domain_note='REAL: univariate polynomial inequalities decided by nlsat (z3) / cvc5')
     sys.exit(code)
